@@ -132,6 +132,115 @@ func c05RestartRun(ver protocol.ConsensusVersion, rnd *vRand, st *c01Stats, k in
 	return s
 }
 
+// c05LateCertRun: the late-payload-after-certificate path (player.handleMessageEvent, payloadVerified: "check it
+// against any received cert threshold").  Nobody sees the cert votes of the prefix and one node L never gets the
+// payload of the leader's value v, so the periods end on next quorums for v; right after everybody entered period
+// P = q + dk (dk = 1, 2, 3) the synchrony point comes: the cert bundle of period q (q = 0, 1, 2) reaches everybody,
+// and L gets the payload 600 ms after the bundle (order 0) or 600 ms before it (order 1).  The others hold the
+// payload, commit and leave; the ledger catch-up is switched OFF in this scenario, so L must emit ensure itself.
+// q >= 2 with dk >= 2 is the router-GC nil dereference (corpus/notes/router_gc_nil_deref.txt): every node dies on
+// the bundle, restarts from its crash state and the round is finished in period P.
+func c05LateCertRun(ver protocol.ConsensusVersion, rnd *vRand, st *c01Stats, k int, variant int) *c01Sim {
+	order := variant % 2
+	P := period(1 + (variant/2)%3)
+	q := period((variant / 6) % 3)
+	P += q
+	n := 4 + (variant/18)%2
+	stake := uint64(260)
+	if n == 5 {
+		stake = 200
+	}
+	cfg := c01Cfg{n: n, nb: 0, rounds: 1, r0: round(5 + rnd.Intn(20)), mode: fmt.Sprintf("latecert_q%d_P%d_o%d", q, P, order), w: map[string]int{"adv": 0}}
+	for i := 0; i < n; i++ {
+		cfg.stake = append(cfg.stake, stake)
+		cfg.groups = append(cfg.groups, 0)
+	}
+	cfg.withhold = []c01Rule{{class: "payload", group: 0, until: -1}, {class: "cert", group: 0, until: -1}, {class: "cert", group: 1, until: -1}}
+	s := c01NewSim(ver, rnd, cfg, st)
+	s.runIdx = k
+	s.noLoss = true
+	s.quiesce()
+	v := s.nodes[0].m.rr.Children[cfg.r0].Children[0].ProposalTracker.Freezer.Lowest.R.Proposal
+	L := 0
+	for j, nd := range s.nodes {
+		if nd.id != vsmSnd(v.OriginalProposer) {
+			L = j
+			break
+		}
+	}
+	s.cfg.groups[L] = 1
+	s.cfg.withhold[0].group = 1 // from now on only L misses the payloads
+	s.quiesce()
+	for per := period(0); per < P; per++ {
+		for i := range s.nodes {
+			s.timeout(i) // filter: soft votes
+		}
+		s.quiesce()
+		for i := range s.nodes {
+			s.timeout(i) // deadline: next votes (v by everybody who holds it / has it as starting value)
+		}
+		s.quiesce()
+	}
+	// the cert bundle of period q, from the cert votes that were on the network
+	t := s.trace(cfg.r0)
+	ub := unauthenticatedBundle{Round: cfg.r0, Period: q, Step: cert, Proposal: v}
+	var w uint64
+	for _, x := range t.pub {
+		if x.R.Period == q && x.R.Step == cert && x.R.Proposal == v {
+			ub.Votes = append(ub.Votes, voteAuthenticator{Sender: x.R.Sender, Cred: x.Cred.UnauthenticatedCredential})
+			w += x.Cred.Weight
+		}
+	}
+	s.cfg.syncAfter = s.step
+	s.lag = L
+	ok := w >= cert.threshold(s.c.proto)
+	for _, nd := range s.nodes {
+		if nd.done || nd.m.player().Period != P {
+			ok = false
+		}
+	}
+	// drop the withheld payload copies: L gets exactly one, at the chosen moment
+	inbox := s.nodes[L].inbox[:0]
+	for _, m := range s.nodes[L].inbox {
+		if m.kind != c01MCompound {
+			inbox = append(inbox, m)
+		} else {
+			s.lost(L, m)
+		}
+	}
+	s.nodes[L].inbox = inbox
+	s.synchronise()
+	if !ok {
+		if os.Getenv("VERIF_C01_DEBUG") != "" {
+			for _, nd := range s.nodes {
+				pl := nd.m.player()
+				fmt.Fprintf(os.Stderr, "latecert %s not reached: node %d done=%v (%d,%d,%d) w=%d\n", cfg.mode, nd.id, nd.done, pl.Round, pl.Period, pl.Step, w)
+			}
+		}
+		s.lag = -1 // the prefix did not reach the intended state: an ordinary run
+		return s
+	}
+	push := func(j int, d time.Duration, m c01Msg) {
+		s.seq++
+		s.q = append(s.q, c01Timed{at: s.now + d, seq: s.seq, node: j, net: true, msg: m})
+	}
+	bm := c01Msg{kind: c01MBundle, ub: ub, from: -1, rnd: cfg.r0}
+	pm := c01Msg{kind: c01MCompound, pv: v, from: -1, rnd: cfg.r0}
+	for j := range s.nodes {
+		if j != L {
+			push(j, 10*time.Millisecond, bm)
+		}
+	}
+	if order == 0 {
+		push(L, 10*time.Millisecond, bm)
+		push(L, 610*time.Millisecond, pm)
+	} else {
+		push(L, 10*time.Millisecond, pm)
+		push(L, 610*time.Millisecond, bm)
+	}
+	return s
+}
+
 func (s *c01Sim) c05StaleBundles() int {
 	n := 0
 	r := s.cfg.r0
@@ -214,7 +323,7 @@ func TestVerifC05(t *testing.T) {
 	defer out.Close()
 	st := c01NewStats()
 	vers := c01Versions()
-	committed, total, nilPanics, maxLag, maxStepAfter, staleRuns, lateNodes, caught, restartRuns, restartStuck := 0, 0, 0, 0, 0, 0, 0, 0, 0, 0
+	committed, total, nilPanics, maxLag, maxStepAfter, staleRuns, lateNodes, caught, restartRuns, restartStuck, lateCertRuns, lateCertOwn := 0, 0, 0, 0, 0, 0, 0, 0, 0, 0, 0, 0
 	var worstTime time.Duration
 	hist := map[int]int{}
 	for k := 0; k < n; k++ {
@@ -223,7 +332,17 @@ func TestVerifC05(t *testing.T) {
 		dbg := os.Getenv("VERIF_C01_DEBUG") != "" && vEnvInt("VERIF_C01_DEBUGRUN", -1) == k
 		var s *c01Sim
 		limit := c05Limit
-		if k%100 == 37 {
+		directed := false
+		if k%25 == 12 {
+			// the late-payload-after-certificate scenarios (no ledger catch-up: the lagging node must ensure itself)
+			s = c05LateCertRun(vers[k%len(vers)], rnd, st, k, k/25+vEnvInt("VERIF_SEED", 1)-1)
+			cfg = s.cfg
+			directed = true
+			limit = 15 * time.Minute
+			if s.lag >= 0 {
+				lateCertRuns++
+			}
+		} else if k%100 == 38 {
 			// tagged crash scenario (recorded finding c05_restart_loses_pipelined_payload)
 			s = c05RestartRun(vers[k%len(vers)], rnd, st, k)
 			cfg = s.cfg
@@ -248,8 +367,13 @@ func TestVerifC05(t *testing.T) {
 				staleRuns++
 			}
 		}
-		s.synchronise()
+		if !directed {
+			s.synchronise()
+		}
 		s.catchupDelay = 20 * time.Second
+		if directed && s.lag >= 0 {
+			s.catchupDelay = 0
+		}
 		for _, o := range s.nodes {
 			if _, ok := o.ensP[cfg.r0]; ok {
 				// a block committed during the asynchronous prefix is in that node's ledger
@@ -277,6 +401,11 @@ func TestVerifC05(t *testing.T) {
 		for _, nd := range s.nodes {
 			if !nd.syncDone && nd.syncP > pstar {
 				pstar = nd.syncP
+			}
+		}
+		if directed && s.lag >= 0 {
+			if _, ok := s.nodes[s.lag].ensP[cfg.r0]; ok {
+				lateCertOwn++
 			}
 		}
 		for _, nd := range s.nodes {
@@ -314,7 +443,7 @@ func TestVerifC05(t *testing.T) {
 	vStats(map[string]interface{}{
 		"runs": st.runs, "nodes": total, "nodes_committed": committed, "nodes_not_committed": lateNodes, "nodes_caught_up_through_ledger": caught,
 		"ensure_period_minus_max_period_at_sync_histogram": hist, "max_periods_after_sync": maxLag, "max_step_in_a_period_entered_after_sync": maxStepAfter,
-		"nil_router_panics_after_sync": nilPanics, "stale_cert_bundle_runs": staleRuns, "restart_scenario_runs": restartRuns, "restart_scenario_nodes_stuck": restartStuck, "worst_virtual_seconds_to_finish": int(worstTime / time.Second),
+		"nil_router_panics_after_sync": nilPanics, "stale_cert_bundle_runs": staleRuns, "late_cert_scenario_runs": lateCertRuns, "late_cert_scenario_lagging_node_committed_itself": lateCertOwn, "restart_scenario_runs": restartRuns, "restart_scenario_nodes_stuck": restartStuck, "worst_virtual_seconds_to_finish": int(worstTime / time.Second),
 		"submitTop_calls": st.submits, "go_panics": st.panics, "panic_classes": st.panicClasses, "crash_restores": st.crashes, "modes": st.modes,
 		"timeouts": st.timeouts, "fast_timeouts": st.fasts,
 	})
